@@ -1,10 +1,23 @@
 /-
   C11 — helper development: arithmetic modulo ℤ³, soundness of the executable checkers of ShelxModel/C11Core.lean,
   and the kernel checks over the tabulated settings (spec side only: nothing here depends on the table
-  regenerated from cards.py).
+  regenerated from cards.py). The kernel evaluations themselves are in ShelxProps/Lemmas/C11Tab*.lean, one piece of
+  the table (for the two largest groups: one slice of the generators) per file, so that they are checked in parallel;
+  `settings_spec` below puts the pieces together for the whole table.
 -/
 import ShelxModel.C11Core
 import ShelxModel.C11Table
+import ShelxProps.Lemmas.C11TabA
+import ShelxProps.Lemmas.C11TabB
+import ShelxProps.Lemmas.C11TabC
+import ShelxProps.Lemmas.C11TabD
+import ShelxProps.Lemmas.C11TabV
+import ShelxProps.Lemmas.C11TabE1
+import ShelxProps.Lemmas.C11TabE2
+import ShelxProps.Lemmas.C11TabF1
+import ShelxProps.Lemmas.C11TabF2
+import ShelxProps.Lemmas.C11TabF3
+import ShelxProps.Lemmas.C11TabF4
 import Mathlib.Tactic.Ring
 import Mathlib.Tactic.Linarith
 import Mathlib.Tactic.Push
@@ -224,32 +237,87 @@ theorem closed_of_perm {L G : List Op} (hp : L.map cls ~ G.map cls) (hG : Closed
   rw [cls_comp_congr ea eb] at this
   exact hp.symm.subset this
 
-/-! ### the tabulated settings, spec side (kernel evaluation) -/
-
-/-- valid setting, spec list closed under its generators (numerators over 24), and as many operators as
-    International Tables A list for the group -/
-def specOK (e : Setting) : Bool :=
-  validB e.N e.S && leftClosedSB 24 (gensOf e.N e.S) (fullGroup e.N e.S) && ((fullGroup e.N e.S).length == e.order)
-
-set_option maxRecDepth 100000 in
-theorem settings_specOK_upto96 : (settings.filter fun e => decide (e.order ≤ 96)).all specOK = true := by decide +kernel
-
-set_option maxRecDepth 100000 in
-theorem settings_specOK_192 : (settings.filter fun e => decide (96 < e.order)).all specOK = true := by decide +kernel
-
-theorem settings_specOK : ∀ e ∈ settings, specOK e = true := by
-  intro e he
-  by_cases h : e.order ≤ 96
-  · exact List.all_eq_true.mp settings_specOK_upto96 e (List.mem_filter.mpr ⟨he, by simpa using h⟩)
-  · exact List.all_eq_true.mp settings_specOK_192 e (List.mem_filter.mpr ⟨he, by simpa using h⟩)
+/-! ### the tabulated settings, spec side (kernel evaluation in ShelxProps/Lemmas/C11Tab*.lean) -/
 
 theorem validB_sound (N : Int) (S : List Op) (h : validB N S = true) : ValidSetting N S := by
   simp only [validB, Bool.and_eq_true, decide_eq_true_eq] at h
   exact ⟨⟨h.1.1, h.1.2⟩, nodupB_sound _ h.2⟩
 
-theorem specOK_sound (e : Setting) (h : specOK e = true) :
-    ValidSetting e.N e.S ∧ Closed (fullGroup e.N e.S) ∧ (fullGroup e.N e.S).length = e.order := by
-  simp only [specOK, Bool.and_eq_true, beq_iff_eq] at h
-  exact ⟨validB_sound _ _ h.1.1, closed_fullGroup _ _ (leftClosedSB_sound _ _ _ h.1.2), h.2⟩
+/-- what is established for each tabulated setting -/
+def SpecOK (e : Setting) : Prop :=
+  ValidSetting e.N e.S ∧ Closed (fullGroup e.N e.S) ∧ (fullGroup e.N e.S).length = e.order
+
+theorem validOK_sound (e : Setting) (h : validOK e = true) :
+    ValidSetting e.N e.S ∧ (fullGroup e.N e.S).length = e.order := by
+  simp only [validOK, Bool.and_eq_true, beq_iff_eq] at h
+  exact ⟨validB_sound _ _ h.1, h.2⟩
+
+theorem closedUnder_sound (gs : Setting → List Op) (e : Setting) (h : closedUnder gs e = true) :
+    LeftClosed (gs e) (fullGroup e.N e.S) := leftClosedSB_sound _ _ _ h
+
+theorem specOK_sound (e : Setting) (h : specOK e = true) : SpecOK e := by
+  simp only [specOK, Bool.and_eq_true] at h
+  obtain ⟨hv, hl⟩ := validOK_sound e h.1
+  exact ⟨hv, closed_fullGroup _ _ (closedUnder_sound _ e h.2), hl⟩
+
+/-- closure under a list of generators from closure under a first slice and under the rest -/
+theorem leftClosed_of_take_drop (n : Nat) {gens G : List Op}
+    (h1 : LeftClosed (gens.take n) G) (h2 : LeftClosed (gens.drop n) G) : LeftClosed gens G := by
+  intro g hg
+  rw [← List.take_append_drop n gens] at hg
+  rcases List.mem_append.mp hg with h | h
+  · exact h1 g h
+  · exact h2 g h
+
+theorem mem_take_or_drop {α : Type} (n : Nat) {l : List α} {a : α} (h : a ∈ l) : a ∈ l.take n ∨ a ∈ l.drop n := by
+  rw [← List.take_append_drop n l] at h
+  exact List.mem_append.mp h
+
+theorem all_specOK_sound {l : List Setting} (h : l.all specOK = true) : ∀ e ∈ l, SpecOK e :=
+  fun e he => specOK_sound e (List.all_eq_true.mp h e he)
+
+/-- Ia-3d: validity and order from C11TabV, closure from two slices of the generators -/
+theorem tabE_spec : ∀ e ∈ tabE, SpecOK e := by
+  intro e he
+  obtain ⟨hv, hl⟩ := validOK_sound e (List.all_eq_true.mp tabE_validOK e he)
+  have c1 := closedUnder_sound _ e (List.all_eq_true.mp tabE_closed1 e he)
+  have c2 := closedUnder_sound _ e (List.all_eq_true.mp tabE_closed2 e he)
+  simp only [gensSlice, gensFrom, List.drop_zero] at c1 c2
+  exact ⟨hv, closed_fullGroup _ _ (leftClosed_of_take_drop 13 c1 c2), hl⟩
+
+/-- Fm-3m: validity and order from C11TabV, closure from four slices of the generators -/
+theorem tabF_spec : ∀ e ∈ tabF, SpecOK e := by
+  intro e he
+  obtain ⟨hv, hl⟩ := validOK_sound e (List.all_eq_true.mp tabF_validOK e he)
+  have c1 := closedUnder_sound _ e (List.all_eq_true.mp tabF_closed1 e he)
+  have c2 := closedUnder_sound _ e (List.all_eq_true.mp tabF_closed2 e he)
+  have c3 := closedUnder_sound _ e (List.all_eq_true.mp tabF_closed3 e he)
+  have c4 := closedUnder_sound _ e (List.all_eq_true.mp tabF_closed4 e he)
+  simp only [gensSlice, gensFrom, List.drop_zero] at c1 c2 c3 c4
+  have c34 : LeftClosed ((gensOfSetting e).drop 14) (fullGroup e.N e.S) :=
+    leftClosed_of_take_drop 7 c3 (by simpa [List.drop_drop] using c4)
+  have c234 : LeftClosed ((gensOfSetting e).drop 7) (fullGroup e.N e.S) :=
+    leftClosed_of_take_drop 7 c2 (by simpa [List.drop_drop] using c34)
+  exact ⟨hv, closed_fullGroup _ _ (leftClosed_of_take_drop 7 c1 c234), hl⟩
+
+/-- **every** tabulated setting (the pieces `tabA … tabF` exhaust `settings`, whatever its length): valid, spec
+    list closed under composition mod ℤ³, order as in International Tables A -/
+theorem settings_spec : ∀ e ∈ settings, SpecOK e := by
+  intro e he
+  rcases mem_take_or_drop 30 he with h | h
+  · exact all_specOK_sound tabA_specOK e h
+  rcases mem_take_or_drop 7 h with h | h
+  · exact all_specOK_sound tabB_specOK e h
+  rw [List.drop_drop] at h
+  rcases mem_take_or_drop 3 h with h | h
+  · exact all_specOK_sound tabC_specOK e h
+  rw [List.drop_drop] at h
+  rcases mem_take_or_drop 1 h with h | h
+  · exact all_specOK_sound tabD_specOK e h
+  rw [List.drop_drop] at h
+  rcases mem_take_or_drop 1 h with h | h
+  · exact tabE_spec e h
+  rw [List.drop_drop] at h
+  exact tabF_spec e h
 
 end Shelx.C11
